@@ -1,6 +1,7 @@
 (* C19 — lemmas about Model/Pos.v (position bookkeeping) and Model/ErrFmt.v (rendering). *)
 From Coq Require Import NArith ZArith List Bool Arith Lia ZifyBool ZifyN ZifyNat.
-From DS Require Import Model.Pos.
+From Coq Require Import Decimal DecimalNat DecimalFacts.
+From DS Require Import Model.Pos Model.ErrFmt.
 Import ListNotations.
 
 Ltac Zify.zify_post_hook ::= Z.div_mod_to_equations.
@@ -358,4 +359,286 @@ Proof.
   rewrite Ho in *. destruct (plain_lc_fun _ _ _ _ _ _ Hp Hp') as [-> ->].
   rewrite Hd in Hd'. inversion Hd' as [[Hr Hw]]. rewrite Hr in Hlc.
   destruct (rn s' =? NL)%N; destruct Hlc, Hlc'; repeat split; congruence.
+Qed.
+
+(* ====================================================================================== *)
+(* rendering (Model/ErrFmt.v)                                                               *)
+(* ====================================================================================== *)
+
+Lemma count_nl_firstn_le n l : count_nl (firstn n l) <= count_nl l.
+Proof. rewrite <- (firstn_skipn n l) at 2. rewrite count_nl_app. lia. Qed.
+
+(* ---- strings.Split(s, "\n") ---- *)
+Lemma split_lines_length inp : length (split_lines inp) = S (count_nl inp).
+Proof.
+  induction inp as [|b t IH]; cbn [split_lines count_nl]; [reflexivity|].
+  destruct (b =? NL)%N; [cbn [length]; lia|].
+  destruct (split_lines t) as [|l r]; cbn [length] in *; lia.
+Qed.
+
+Lemma split_lines_no_nl inp : Forall (fun l => count_nl l = 0) (split_lines inp).
+Proof.
+  induction inp as [|b t IH]; cbn [split_lines]; [repeat constructor|].
+  destruct (b =? NL)%N eqn:E; [constructor; [reflexivity|assumption]|].
+  destruct (split_lines t) as [|l r]; [repeat constructor; cbn; rewrite E; reflexivity|].
+  inversion IH; subst. constructor; [cbn; rewrite E; assumption|assumption].
+Qed.
+
+Lemma count_nl_trunc l : count_nl l = 0 -> count_nl (trunc l) = 0.
+Proof.
+  intro H. unfold trunc. destruct (60 <? length l); [|assumption].
+  rewrite count_nl_app. pose proof (count_nl_firstn_le 57 l).
+  change (count_nl [46%N; 46%N; 46%N]) with 0. lia.
+Qed.
+
+Lemma get_line_in_range inp ln :
+  1 <= ln <= length (split_lines inp) ->
+  get_line inp ln = trunc (nth (ln - 1) (split_lines inp) []) /\ count_nl (get_line inp ln) = 0.
+Proof.
+  intro H. unfold get_line.
+  destruct ((0 <? ln) && (ln <=? length (split_lines inp))) eqn:E.
+  2:{ apply andb_false_iff in E. destruct E as [E|E];
+      [apply Nat.ltb_ge in E|apply Nat.leb_gt in E]; lia. }
+  split; [reflexivity|]. apply count_nl_trunc.
+  pose proof (split_lines_no_nl inp) as F. rewrite Forall_forall in F.
+  apply F. apply nth_In. lia.
+Qed.
+
+(* ---- decimal ---- *)
+Lemma uint_bytes_digits d : forallb is_digit (uint_bytes d) = true.
+Proof. induction d; cbn [uint_bytes forallb]; try rewrite IHd; reflexivity. Qed.
+
+Lemma digits_uint_bytes d : digits_uint (uint_bytes d) = d.
+Proof. induction d; cbn; try rewrite IHd; reflexivity. Qed.
+
+Lemma read_show n : read_nat (show_nat n) = n.
+Proof. unfold read_nat, show_nat. rewrite digits_uint_bytes. apply Unsigned.of_to. Qed.
+
+Lemma show_nat_cons n : exists d ds, show_nat n = d :: ds /\ is_digit d = true.
+Proof.
+  unfold show_nat.
+  assert (H : Nat.to_uint n <> Nil).
+  { rewrite <- (Unsigned.of_to n) at 1. rewrite Unsigned.to_of. apply unorm_nonnil. }
+  pose proof (uint_bytes_digits (Nat.to_uint n)) as Hd.
+  destruct (Nat.to_uint n); [congruence| | | | | | | | | |];
+    cbn [uint_bytes] in *; eexists; eexists; (split; [reflexivity|reflexivity]).
+Qed.
+
+Lemma digits_no_nl l : forallb is_digit l = true -> count_nl l = 0.
+Proof.
+  induction l as [|b r IH]; [reflexivity|]. cbn [forallb count_nl]. intro H.
+  apply andb_prop in H. destruct H as [Hb Hr]. rewrite (IH Hr).
+  destruct (b =? NL)%N eqn:E; [|reflexivity]. unfold is_digit, NL in *. lia.
+Qed.
+
+(* ---- scanning helpers ---- *)
+Lemma split_at_nl_app a b : count_nl a = 0 -> split_at_nl (a ++ NL :: b) = (a, b).
+Proof.
+  induction a as [|x a IH]; intro H.
+  - cbn. reflexivity.
+  - cbn [count_nl] in H. simpl app. simpl split_at_nl.
+    destruct (x =? NL)%N; [lia|]. rewrite IH by lia. reflexivity.
+Qed.
+
+Lemma strip_app p r : strip p (p ++ r) = Some r.
+Proof.
+  induction p as [|x p IH]; [destruct r; reflexivity|].
+  simpl. rewrite N.eqb_refl. exact IH.
+Qed.
+
+Lemma span_app (f : N -> bool) a c r :
+  forallb f a = true -> f c = false -> span f (a ++ c :: r) = (a, c :: r).
+Proof.
+  induction a as [|x a IH]; intros Ha Hc.
+  - cbn. rewrite Hc. reflexivity.
+  - cbn [forallb] in Ha. apply andb_prop in Ha. destruct Ha as [Hx Ha].
+    simpl. rewrite Hx, IH by assumption. reflexivity.
+Qed.
+
+Lemma forallb_repeat32 k : forallb (N.eqb 32) (repeat 32%N k) = true.
+Proof. induction k; [reflexivity|]. cbn. exact IHk. Qed.
+
+(* ---- the position line ---- *)
+Lemma pos_msg_app ln cl m x : pos_msg ln cl m ++ x = pos_msg ln cl (m ++ x).
+Proof. unfold pos_msg. rewrite <- !app_assoc. reflexivity. Qed.
+
+Lemma parse_pos_ok W ln cl m :
+  forallb (fun b => negb (is_digit b)) W = true ->
+  parse_pos (W ++ pos_msg ln cl m) = Some (ln, cl).
+Proof.
+  intro HW. unfold parse_pos, pos_msg.
+  destruct (show_nat_cons ln) as [d [ds [E Hd]]].
+  destruct (show_nat_cons cl) as [d' [ds' [E' Hd']]].
+  pose proof (uint_bytes_digits (Nat.to_uint ln)) as Hall. fold (show_nat ln) in Hall.
+  pose proof (uint_bytes_digits (Nat.to_uint cl)) as Hall'. fold (show_nat cl) in Hall'.
+  rewrite E.
+  replace (W ++ (d :: ds) ++ [58%N] ++ show_nat cl ++ [32%N; 45%N; 32%N] ++ m)
+    with (W ++ d :: (ds ++ 58%N :: show_nat cl ++ 32%N :: 45%N :: 32%N :: m)) by reflexivity.
+  rewrite (span_app (fun b => negb (is_digit b)) W d) by (try assumption; rewrite Hd; reflexivity).
+  replace (d :: ds ++ 58%N :: show_nat cl ++ 32%N :: 45%N :: 32%N :: m)
+    with ((d :: ds) ++ 58%N :: (show_nat cl ++ 32%N :: 45%N :: 32%N :: m)) by reflexivity.
+  rewrite (span_app is_digit (d :: ds) 58%N) by (try reflexivity; rewrite <- E; exact Hall).
+  rewrite (span_app is_digit (show_nat cl) 32%N) by (try reflexivity; exact Hall').
+  rewrite E' at 1. rewrite <- E, !read_show. reflexivity.
+Qed.
+
+Definition hd_text (l : Lang) : bytes := drop_nl (header l).
+
+Lemma header_shape l : header l = hd_text l ++ [NL] /\ count_nl (hd_text l) = 0.
+Proof. destruct l; split; reflexivity. Qed.
+
+Lemma tail_shape l ln cl cn en :
+  exists W m, tail l ln cl cn en = W ++ pos_msg ln cl m /\
+              forallb (fun b => negb (is_digit b)) W = true /\ (W = w_cn \/ W = w_en).
+Proof.
+  destruct l; cbn [tail].
+  - exists w_cn, (cn ++ [NL] ++ w_en ++ pos_msg ln cl en). rewrite <- pos_msg_app.
+    repeat split; auto.
+  - exists w_cn, cn. repeat split; auto.
+  - exists w_en, en. repeat split; auto.
+Qed.
+
+(* From the rendered text one recovers exactly the line, the column, the quoted line and the caret
+   column; the caret stands after (col - 1) blanks (0 when col = 0). *)
+Theorem render_parses_back l ln cl inp cn en ch :
+  inp <> [] -> 1 <= ln <= length (split_lines inp) ->
+  parse_back (render l ln cl inp cn en ch) =
+  Some (ln, cl, Some (get_line inp ln, caret_spaces cl)).
+Proof.
+  intros Hne Hln.
+  destruct (get_line_in_range inp ln Hln) as [_ Hq].
+  destruct (header_shape l) as [Hh Hh0].
+  destruct (tail_shape l ln cl (fmt_msg cn ch) (fmt_msg en ch)) as [W [m [Ht [HW HWc]]]].
+  unfold render, context. destruct inp as [|b0 t0]; [congruence|].
+  set (q := get_line (b0 :: t0) ln) in *. rewrite Hh, Ht.
+  set (k := caret_spaces cl).
+  assert (Hshape :
+    (hd_text l ++ [NL]) ++ (bar ++ gutter ++ q ++ [NL] ++ gutter ++ repeat 32%N k ++ [94%N; NL] ++ bar)
+      ++ W ++ pos_msg ln cl m
+    = hd_text l ++ NL :: ((bar ++ gutter) ++ (q ++ NL :: (gutter ++ (repeat 32%N k ++ 94%N ::
+        (NL :: bar ++ W ++ pos_msg ln cl m)))))).
+  { rewrite <- !app_assoc. reflexivity. }
+  rewrite Hshape. unfold parse_back.
+  rewrite split_at_nl_app by assumption.
+  rewrite strip_app.
+  rewrite split_at_nl_app by assumption.
+  rewrite strip_app.
+  rewrite (span_app (N.eqb 32) (repeat 32%N k) 94%N) by (try reflexivity; apply forallb_repeat32).
+  change (94%N :: NL :: bar ++ W ++ pos_msg ln cl m) with (([94%N; NL] ++ bar) ++ W ++ pos_msg ln cl m).
+  rewrite strip_app. rewrite parse_pos_ok by assumption.
+  rewrite repeat_length. reflexivity.
+Qed.
+
+Theorem render_parses_back_empty l ln cl cn en ch :
+  parse_back (render l ln cl [] cn en ch) = Some (ln, cl, None).
+Proof.
+  destruct (header_shape l) as [Hh Hh0].
+  destruct (tail_shape l ln cl (fmt_msg cn ch) (fmt_msg en ch)) as [W [m [Ht [HW HWc]]]].
+  unfold render, context. rewrite Hh, Ht.
+  replace ((hd_text l ++ [NL]) ++ [] ++ W ++ pos_msg ln cl m)
+    with (hd_text l ++ NL :: (W ++ pos_msg ln cl m)) by (rewrite <- app_assoc; reflexivity).
+  unfold parse_back.
+  rewrite split_at_nl_app by assumption.
+  assert (Hs : strip (bar ++ gutter) (W ++ pos_msg ln cl m) = None).
+  { destruct HWc as [-> | ->]; reflexivity. }
+  rewrite Hs. rewrite parse_pos_ok by assumption. reflexivity.
+Qed.
+
+(* ---- language ---- *)
+(* The Chinese rendering does not depend on the English column of the table, the English one not
+   on the Chinese column; both are header ++ context ++ position word ++ line:col - message. *)
+Theorem render_cn_only ln cl inp cn en en' ch :
+  render Cn ln cl inp cn en ch = render Cn ln cl inp cn en' ch /\
+  render Cn ln cl inp cn en ch = h_cn ++ context ln cl inp ++ w_cn ++ pos_msg ln cl (fmt_msg cn ch).
+Proof. split; reflexivity. Qed.
+
+Theorem render_en_only ln cl inp cn cn' en ch :
+  render En ln cl inp cn en ch = render En ln cl inp cn' en ch /\
+  render En ln cl inp cn en ch = h_en ++ context ln cl inp ++ w_en ++ pos_msg ln cl (fmt_msg en ch).
+Proof. split; reflexivity. Qed.
+
+(* the bilingual rendering carries both position lines *)
+Theorem render_bi_both ln cl inp cn en ch :
+  exists pre,
+    render Bi ln cl inp cn en ch =
+    pre ++ (w_cn ++ pos_msg ln cl (fmt_msg cn ch)) ++ [NL] ++ (w_en ++ pos_msg ln cl (fmt_msg en ch)).
+Proof.
+  exists (h_bi ++ context ln cl inp). unfold render, tail, header.
+  rewrite <- !app_assoc. reflexivity.
+Qed.
+
+(* the context block (quoted line and caret) is the same under every language setting *)
+Theorem context_language_independent l l' ln cl inp cn en ch :
+  exists a b a' b',
+    render l ln cl inp cn en ch = a ++ context ln cl inp ++ b /\
+    render l' ln cl inp cn en ch = a' ++ context ln cl inp ++ b'.
+Proof. unfold render. do 4 eexists. split; reflexivity. Qed.
+
+Lemma msg_table_ok : table_ok msg_table = true.
+Proof. vm_compute. reflexivity. Qed.
+
+(* Sprintf on a well-formed template with a verb is the substitution of the encoded rune *)
+Lemma fmt_msg_verb t ch : ch <> 0%N -> has_verb t = true -> fmt_msg t ch = subst_c t (encode_rune ch).
+Proof.
+  intros Hc Hv. unfold fmt_msg. destruct (ch =? 0)%N eqn:E; [lia|]. rewrite Hv. reflexivity.
+Qed.
+
+(* ---- the footprint of a message: no shared state ---- *)
+(* Context.Parse stores its own Config.ParseErrorLanguage (>= 0) in the error value: the text then
+   does not depend on the package-level default, the only state VMs share on this path. *)
+Theorem error_text_independent_of_default err_lang d d' ln cl inp cn en ch :
+  (0 <= err_lang)%Z ->
+  error_text err_lang d ln cl inp cn en ch = error_text err_lang d' ln cl inp cn en ch.
+Proof.
+  intro H. unfold error_text. destruct (err_lang <? 0)%Z eqn:E; [lia|reflexivity].
+Qed.
+
+(* and a negative setting does fall back to the shared default: by design, stated *)
+Lemma error_text_negative_uses_default :
+  error_text (-1) 1 1 1 [] [65%N] [66%N] 0 <> error_text (-1) 2 1 1 [] [65%N] [66%N] 0.
+Proof. vm_compute. discriminate. Qed.
+
+(* ---- the quoted line is the line the position names ---- *)
+Theorem quoted_line_consistent inp s :
+  consistent inp s ->
+  1 <= line s <= length (split_lines inp) /\
+  get_line inp (line s) = trunc (nth (line s - 1) (split_lines inp) []) /\
+  line s - 1 = count_nl (firstn (off s) inp) + (if (rn s =? NL)%N then 1 else 0).
+Proof.
+  intros [L [C [[k [Hv Hk]] [Hd [Hlen Hlc]]]]].
+  pose proof (plain_line_bytes inp k _ _ _ Hk) as HL.
+  assert (Hcnt : count_nl inp = count_nl (firstn (off s) inp) + count_nl (skipn (off s) inp)).
+  { rewrite <- (firstn_skipn (off s) inp) at 1. apply count_nl_app. }
+  assert (Hb : 1 <= line s <= length (split_lines inp) /\
+               line s - 1 = count_nl (firstn (off s) inp) + (if (rn s =? NL)%N then 1 else 0)).
+  { rewrite split_lines_length.
+    destruct (rn s =? NL)%N eqn:E.
+    - destruct Hlc as [Hl _].
+      assert (Hs : exists t, skipn (off s) inp = NL :: t).
+      { apply decode_nl_iff. rewrite Hd. cbn. apply N.eqb_eq. exact E. }
+      destruct Hs as [t Ht]. rewrite Ht in Hcnt. cbn [count_nl] in Hcnt.
+      rewrite N.eqb_refl in Hcnt. lia.
+    - destruct Hlc as [Hl _]. lia. }
+  destruct Hb as [Hb1 Hb2]. split; [exact Hb1|]. split; [|exact Hb2].
+  apply get_line_in_range. exact Hb1.
+Qed.
+
+(* the position the formatter receives always names an existing line *)
+Theorem fail_pos_line_in_range inp o ln cl :
+  fail_pos inp o = Some (ln, cl) -> 1 <= ln <= length (split_lines inp).
+Proof.
+  unfold fail_pos. destruct (o =? 0) eqn:E.
+  - intro H. inversion H. rewrite split_lines_length. lia.
+  - destruct (point_at inp o) as [s|] eqn:Ep; [|discriminate].
+    intro H. inversion H; subst.
+    apply point_at_reach in Ep. destruct Ep as [Hr _].
+    apply (quoted_line_consistent inp s (pos_invariant _ _ Hr)).
+Qed.
+
+Theorem fail_pos_offset_le inp o ln cl : fail_pos inp o = Some (ln, cl) -> o <= length inp.
+Proof.
+  unfold fail_pos. destruct (o =? 0) eqn:E; [lia|].
+  destruct (point_at inp o) as [s|] eqn:Ep; [|discriminate]. intros _.
+  apply point_at_reach in Ep. destruct Ep as [Hr Ho].
+  pose proof (offset_le_length inp s (pos_invariant _ _ Hr)). lia.
 Qed.
